@@ -62,6 +62,7 @@ struct Shared {
     max_lag: Cell<i64>,
     lag_violation: Cell<Option<(u64, u64)>>,
     mismatch_at: Cell<Option<u64>>,
+    tail_taken: Cell<u64>,
 }
 
 /// Lazy plaintext source of `len` bytes with an optional per-read cap.
@@ -167,6 +168,8 @@ struct CipherSource {
     cap: usize,
     ptbuf: Vec<u8>,
     rec_pt: usize,
+    /// bytes that follow the final record (a longer old file underneath, two files concatenated ...)
+    tail_left: u64,
     sh: Rc<Shared>,
 }
 
@@ -194,11 +197,19 @@ impl Read for CipherSource {
                 self.next_idx += 1;
                 self.done = last;
             }
-            n = want.min(self.rec.len() - self.rpos);
-            buf[..n].copy_from_slice(&self.rec[self.rpos..self.rpos + n]);
-            self.rpos += n;
-            if n > 0 && self.rpos == self.rec.len() {
-                self.sh.input_units.set(self.sh.input_units.get() + 1);
+            if self.done && self.rpos == self.rec.len() && self.tail_left > 0 {
+                // after the final record: the tail, lazily
+                n = (want as u64).min(self.tail_left) as usize;
+                self.plain.fill(&mut buf[..n]);
+                self.tail_left -= n as u64;
+                self.sh.tail_taken.set(self.sh.tail_taken.get() + n as u64);
+            } else {
+                n = want.min(self.rec.len() - self.rpos);
+                buf[..n].copy_from_slice(&self.rec[self.rpos..self.rpos + n]);
+                self.rpos += n;
+                if n > 0 && self.rpos == self.rec.len() {
+                    self.sh.input_units.set(self.sh.input_units.get() + 1);
+                }
             }
         }
         self.sh.input_bytes.set(self.sh.input_bytes.get() + n as u64);
@@ -270,6 +281,10 @@ pub struct Scn {
     /// decryption only: plaintext bytes per chunk record of the (reference-written) file; 0 = 65536.
     /// Files with short chunks are what the encryptor writes when its source returns short reads.
     pub rec: usize,
+    /// decryption only: this many bytes follow the final chunk record. The file must be refused, and
+    /// refusing it must not cost memory in proportion to what follows.
+    #[serde(default)]
+    pub tail: u64,
 }
 
 pub struct A6;
@@ -345,6 +360,7 @@ fn run_one(s: &Scn, len: u64) -> Measured {
                 cap: s.cap,
                 ptbuf: vec![0u8; CS],
                 rec_pt: if s.rec == 0 { CS } else { s.rec.min(CS) },
+                tail_left: s.tail,
                 sh: sh.clone(),
             };
             let mut sink = PlainSink { expect: ByteStream::new(data_seed), total: 0, scratch: [0; 4096], wcap: s.wcap, rec: if s.rec == 0 { CS as u64 } else { s.rec.min(CS) as u64 }, sh: sh.clone() };
@@ -407,15 +423,26 @@ impl Family for A6 {
         // keep the number of seam calls of one run in the low millions
         let wcap = if wcap > 0 && len / (wcap as u64) > 2_000_000 { 65535 } else { wcap };
         let rec = if rec > 0 && len / (rec as u64) > 2_000_000 { 30000 } else { rec };
-        Scn { pass_mode, dir, len, cap, seed: rng.next_u64(), password: Hx(crate::gen::gen_password(rng)), wcap, rec }
+        let mut scn = Scn { pass_mode, dir, len, cap, seed: rng.next_u64(), password: Hx(crate::gen::gen_password(rng)), wcap, rec, tail: 0 };
+        // derived from the seed, not drawn: a quarter of the decryptions beyond the grid have a tail
+        if scn.dir == Dir::Dec && idx >= 16 && scn.seed % 4 == 0 {
+            scn.tail = [1u64, 100_000, 4 << 20, 64 << 20][((scn.seed >> 2) % 4) as usize];
+        }
+        scn
     }
     fn execute(&self, s: &Scn) -> RunOut {
         let mut out = RunOut::default();
         out.props = vec!["C11"];
-        let base = run_one(s, BASE_LEN);
+        let base = run_one(&Scn { tail: 0, ..s.clone() }, BASE_LEN);
         let m = run_one(s, s.len);
-        let name = format!("{} {:?} len={} read-cap={} write-cap={} chunk={}", if s.pass_mode { "pass" } else { "key" }, s.dir, s.len, s.cap, s.wcap, if s.rec == 0 { CS } else { s.rec });
-        if !m.ok || !base.ok {
+        let name = format!("{} {:?} len={} read-cap={} write-cap={} chunk={}{}", if s.pass_mode { "pass" } else { "key" }, s.dir, s.len, s.cap, s.wcap, if s.rec == 0 { CS } else { s.rec }, if s.tail > 0 { format!(" followed by {} more bytes", s.tail) } else { String::new() });
+        if s.tail > 0 {
+            // (whether the file is refused is C03/C04's business; here only what refusing it costs)
+            if m.ok {
+                out.count("probe.file_with_tail_accepted", 1);
+            }
+            out.count("probe.files_with_tail", 1);
+        } else if !m.ok || !base.ok {
             out.violations.push(viol("C11", "operation_failed", format!("{}: {} / baseline {}", name, m.detail, base.detail)));
         }
         if let Some(at) = m.mismatch_at {
@@ -426,7 +453,7 @@ impl Family for A6 {
             Dir::Dec => s.len,
             Dir::Enc => hl + s.len + 32 * m.input_units.max(1),
         };
-        if m.ok && m.out_bytes != want_out {
+        if m.ok && s.tail == 0 && m.out_bytes != want_out {
             out.violations.push(viol("C11", "wrong_output_length", format!("{}: wrote {} bytes, expected {}", name, m.out_bytes, want_out)));
         }
         // (i) incremental output: chunk i is written before more than two further chunks are consumed
@@ -462,6 +489,11 @@ impl Family for A6 {
     }
     fn shrink(&self, s: &Scn) -> Vec<Scn> {
         let mut c = vec![];
+        if s.tail > 0 {
+            let mut t = s.clone();
+            t.tail = 0;
+            c.push(t);
+        }
         for nl in [BASE_LEN, s.len / 2, s.len / 16] {
             if nl < s.len && nl >= BASE_LEN {
                 let mut t = s.clone();
